@@ -23,7 +23,7 @@ RULE = (
 ASSUMPTIONS = ["float32 accumulation error of a correct implementation stays below 2e-5 relative for O(1) inputs of <= 2000 elements (observed <= 2e-6)"]
 CONFIG = {
     "quick": {"examples": 480, "shards": 16, "shrink_s": 40, "time_budget_s": 240},
-    "thorough": {"examples": 5000, "shards": 16, "shrink_s": 200, "time_budget_s": 1500},
+    "thorough": {"examples": 12000, "shards": 16, "shrink_s": 200, "time_budget_s": 1500},
 }
 MODES = [("smse", "mean"), ("smse", None), ("timestep", "mean"), ("timestep", "max"), ("timestep", None), ("normalized", "mean")]
 TOL = 2e-5
